@@ -33,6 +33,7 @@ type c20Scenario struct {
 	DoneInside int     `json:"mark_done_at_invocation"` // 0 = never from inside
 	DoneThread bool    `json:"mark_done_from_thread"`
 	DoneDelay  int     `json:"mark_done_delay_yields"`
+	Pure       c20Pure `json:"pure_clause_inputs"`
 
 	h      *Hist
 	probes map[string]int
@@ -86,6 +87,7 @@ func genC20(t *simrt.Tape, tier string) Scenario {
 		sc.DoneThread = true
 		sc.DoneDelay = t.Choose(10)
 	}
+	sc.Pure = genC20Pure(t)
 	return sc
 }
 
@@ -291,6 +293,10 @@ func (sc *c20Scenario) Run(s *simrt.Sim) {
 		if fmt.Sprint(ga) != "[[1] [1 2 3] [1 2 3 4]]" || fmt.Sprint(gb) != "[[10] [10 20]]" {
 			sc.smoke = append(sc.smoke, Violation{Clause: "api-smoke", Fingerprint: "CurryNewGenerics-twin-instances", Detail: fmt.Sprintf("two CurryNewGenerics instances used alternately: invocations %v / %v", ga, gb)})
 		}
+	}
+	sc.runPure(s, h)
+	if sc.hung {
+		return
 	}
 	if sc.DoneInside > 0 || sc.DoneThread {
 		// a Call begun after MarkDone returned must not invoke fn
